@@ -2,6 +2,7 @@ package conc
 
 import (
 	"context"
+	"errors"
 	"fmt"
 	"strings"
 	"sync"
@@ -32,6 +33,7 @@ type reWorld struct {
 	otherN    int      // reOther instances created so far (guarded by mu)
 	order     []string // labels of the reOther instances in the order their Close ran (guarded by mu)
 	label     string   // label handed to the next reOther (guarded by mu)
+	failLabel string   // the reOther with this label fails to close (guarded by mu)
 }
 
 var (
@@ -67,11 +69,17 @@ type reOther struct {
 	label string
 }
 
+var errReOther = errors.New("reentrant-close fixture: this instance fails to close")
+
 func (o *reOther) Close() error {
 	o.w.otherCl.Add(1)
 	o.w.mu.Lock()
 	o.w.order = append(o.w.order, o.label)
+	fail := o.w.failLabel != "" && o.w.failLabel == o.label
 	o.w.mu.Unlock()
+	if fail {
+		return errReOther
+	}
 	return nil
 }
 
@@ -102,6 +110,13 @@ func runC12Reentrant(c *eng.Ctx, next func() (int, bool)) {
 		"scoped-instance-closes-the-parent:own-scope-closed-by-cancel",
 		"scoped-instance-closes-the-provider:own-scope-closed-by-cancel",
 		"scoped-instance-closes-the-grandparent:own-scope-closed-directly",
+		// the scope BETWEEN the instance's scope and the ancestor it closes is the one that is closed
+		"scoped-instance-closes-the-grandparent:middle-scope-closed-directly",
+		"scoped-instance-closes-the-provider-while-the-grandparent-chain:middle-scope-closed-directly",
+		// another instance of the scope that is closed first fails to close: that scope's Close reports it,
+		// although the instance was disposed by the ancestor's Close running inside it
+		"scoped-instance-closes-the-parent:own-scope-closed-directly:another-instance-of-it-fails",
+		"scoped-instance-closes-the-provider:own-scope-closed-directly:another-instance-of-it-fails",
 	}
 	for _, v := range variants {
 		idx, mine := next()
@@ -122,6 +137,8 @@ func init() {
 			"scoped-instance-closes-the-parent:own-scope-closed-directly",
 			"scoped-instance-closes-the-provider:own-scope-closed-directly",
 			"scoped-instance-closes-the-grandparent:own-scope-closed-directly",
+			"scoped-instance-closes-the-grandparent:middle-scope-closed-directly",
+			"scoped-instance-closes-the-provider-while-the-grandparent-chain:middle-scope-closed-directly",
 		} {
 			idx, mine := next()
 			if !mine {
@@ -135,8 +152,8 @@ func init() {
 
 func reCase(c *eng.Ctx, prop string, idx int, variant string) {
 	viol := func(clause, detail string) {
-		if prop != "C12" && clause != "descendant-instance-closed-after-ancestor-instance" {
-			return
+		if (prop == "C11") != (clause == "descendant-instance-closed-after-ancestor-instance") {
+			return // the order is C11's, everything else C12's
 		}
 		c.R.Violation(eng.Violation{Prop: prop, Clause: clause, Sig: prop + "/" + clause + ":close-called-from-inside-a-close-method:" + variant, Case: idx, CaseID: "reentrant-close-" + variant,
 			Detail: variant + ": " + detail, Replay: map[string]any{"fixture": "reentrant-close", "variant": variant}})
@@ -171,16 +188,23 @@ func reCase(c *eng.Ctx, prop string, idx int, variant string) {
 		must(err)
 	}
 	var child godi.Scope
-	if strings.HasSuffix(variant, "own-scope-closed-by-cancel") || strings.HasSuffix(variant, "own-scope-closed-directly") {
+	if strings.HasSuffix(variant, "own-scope-closed-by-cancel") || strings.HasSuffix(variant, "-closed-directly") {
 		child, err = mid.CreateScope(childCtx)
 	} else {
 		child, err = mid.CreateScope(nil)
 	}
 	must(err)
-	for _, s := range []struct {
+	labelled := []struct {
 		sc    godi.Scope
 		label string
-	}{{parent, "parent"}, {child, "child"}} {
+	}{{parent, "parent"}, {child, "child"}}
+	if mid != parent {
+		labelled = append(labelled[:1:1], struct {
+			sc    godi.Scope
+			label string
+		}{mid, "mid"}, labelled[1])
+	}
+	for _, s := range labelled {
 		w.mu.Lock()
 		w.label = s.label
 		w.mu.Unlock()
@@ -190,6 +214,7 @@ func reCase(c *eng.Ctx, prop string, idx int, variant string) {
 	}
 	var outer func() error
 	byWatcher := false
+	wantOuterErr := false
 	wantClosers := 1
 	switch variant {
 	case "scoped-instance-closes-its-own-scope":
@@ -212,10 +237,34 @@ func reCase(c *eng.Ctx, prop string, idx int, variant string) {
 		_, err = godi.Resolve[*reCloser](child)
 		w.target = prov.Close
 		outer = prov.Close
+	case "scoped-instance-closes-the-parent:own-scope-closed-directly:another-instance-of-it-fails":
+		_, err = godi.Resolve[*reCloser](child)
+		w.target = func() error { _ = parent.Close(); return nil }
+		outer = child.Close
+		w.mu.Lock()
+		w.failLabel = "child"
+		w.mu.Unlock()
+		wantOuterErr = true
+	case "scoped-instance-closes-the-provider:own-scope-closed-directly:another-instance-of-it-fails":
+		_, err = godi.Resolve[*reCloser](child)
+		w.target = func() error { _ = prov.Close(); return nil }
+		outer = child.Close
+		w.mu.Lock()
+		w.failLabel = "child"
+		w.mu.Unlock()
+		wantOuterErr = true
 	case "scoped-instance-closes-the-parent:own-scope-closed-directly", "scoped-instance-closes-the-grandparent:own-scope-closed-directly":
 		_, err = godi.Resolve[*reCloser](child)
 		w.target = parent.Close
 		outer = child.Close
+	case "scoped-instance-closes-the-grandparent:middle-scope-closed-directly":
+		_, err = godi.Resolve[*reCloser](child)
+		w.target = parent.Close
+		outer = mid.Close
+	case "scoped-instance-closes-the-provider-while-the-grandparent-chain:middle-scope-closed-directly":
+		_, err = godi.Resolve[*reCloser](child)
+		w.target = prov.Close
+		outer = mid.Close
 	case "scoped-instance-closes-the-provider:own-scope-closed-directly":
 		_, err = godi.Resolve[*reCloser](child)
 		w.target = prov.Close
@@ -281,8 +330,11 @@ func reCase(c *eng.Ctx, prop string, idx int, variant string) {
 			return
 		}
 	}
-	if outerErr != nil {
+	if outerErr != nil && !wantOuterErr {
 		viol("close-error-spurious", fmt.Sprintf("the outer Close returned %v although no Close method failed", outerErr))
+	}
+	if wantOuterErr && outerErr == nil {
+		viol("disposal-error-lost", "the Close of the scope returned nil although one of the scope's own instances failed to close (it was disposed by the ancestor's Close that one of its Close methods had started)")
 	}
 	if e, _ := w.innerE.Load().(string); e != "" {
 		viol("second-close-not-nil", "the Close called from inside the Close method returned "+e)
@@ -294,14 +346,20 @@ func reCase(c *eng.Ctx, prop string, idx int, variant string) {
 	w.mu.Lock()
 	order := append([]string(nil), w.order...)
 	w.mu.Unlock()
-	if len(order) == 2 && order[0] == "parent" && order[1] == "child" && !strings.Contains(variant, "closes-its-own-scope") {
-		viol("descendant-instance-closed-after-ancestor-instance", fmt.Sprintf("the instance of the ancestor scope was closed while an instance of the descendant scope was still open (close order %v)", order))
+	depth := map[string]int{"parent": 0, "mid": 1, "child": 2}
+	if !strings.Contains(variant, "closes-its-own-scope") {
+		for i := 1; i < len(order); i++ {
+			if depth[order[i]] > depth[order[i-1]] {
+				viol("descendant-instance-closed-after-ancestor-instance", fmt.Sprintf("the instance of an ancestor scope was closed while an instance of a descendant scope was still open (close order %v)", order))
+				break
+			}
+		}
 	}
 	if n := w.closes.Load(); int(n) != wantClosers {
 		viol("close-count", fmt.Sprintf("the instance that closes again from its Close method was closed %d times", n))
 	}
-	if n := w.otherCl.Load(); n != 2 {
-		viol("close-count", fmt.Sprintf("the two other scoped instances were closed %d times in total (want 2)", n))
+	if n := w.otherCl.Load(); int(n) != len(labelled) {
+		viol("close-count", fmt.Sprintf("the %d other scoped instances were closed %d times in total", len(labelled), n))
 	}
 	c.R.Count("reentrant_close_cases", 1)
 	c.R.End(idx, eng.Hash("c12-reentrant", variant), true)
